@@ -81,6 +81,8 @@ def sp_forall(eng, node, st, exists=False):
     lam = args[-1]
     names, consts, saved = _bind_lambda(eng, lam, st)
     st.ghost['qdepth'] = st.ghost.get('qdepth', 0) + 1
+    saved_qvars = st.ghost.get('qvars', ())
+    st.ghost['qvars'] = tuple(saved_qvars) + tuple(consts)
     try:
         rng = []
         if len(args) == 3:
@@ -104,6 +106,7 @@ def sp_forall(eng, node, st, exists=False):
     finally:
         _unbind(st, saved)
         st.ghost['qdepth'] -= 1
+        st.ghost['qvars'] = saved_qvars
     if pats and not exists:
         f = z3.Implies(z3.And(*rng), body) if rng else body
         try:
@@ -521,6 +524,13 @@ def sp_transpose(eng, node, st):
     return models.transpose(eng, st, eng.ev(node.args[0], st))
 
 
+def sp_cnt_ext(eng, node, st):
+    """cnt_ext(xs, ys): the instance of the counting lemma for these two lists (a formula, used under assume_lemmas)"""
+    from . import models
+    xs, ys = eng.ev(node.args[0], st), eng.ev(node.args[1], st)
+    return vbool(models.cnt_ext_instance(eng, st, eng.list_arr(st, xs), eng.list_len(st, xs), eng.list_arr(st, ys), eng.list_len(st, ys)))
+
+
 def sp_cnt(eng, node, st):
     """cnt(xs, k, p): number of q < p with xs[q] == k"""
     from . import models
@@ -528,10 +538,10 @@ def sp_cnt(eng, node, st):
     k = to_int(eng.ev(node.args[1], st))
     p = to_int(eng.ev(node.args[2], st))
     a = eng.list_arr(st, xs)
-    return vint(models.cnt(eng, st, a)(a, k, p))
+    return vint(models.cnt(eng, st, a, eng.list_len(st, xs))(a, k, p))
 
 
-SPEC_BUILTINS = dict(cnt=sp_cnt, psum=sp_psum, rsum=sp_rsum, norm=sp_norm, norm2d=sp_norm2d, sqrt=sp_sqrt, matmul=sp_matmul, chain_offset=sp_chain_offset, mean_of=sp_agg, median_of=sp_agg, sum_of=sp_agg, row_offset=sp_row_offset, mean_all=sp_mean_all, count_above=sp_count_above, trace=sp_trace, dict_get=sp_idict, dict_has=sp_idict, runsum=sp_runsum, ln=sp_ln, pi=sp_pi, isfinite=sp_isfinite, task_theta=sp_task_theta, spd_compressed_task=sp_spd_task, logdet=sp_logdet, is_spd=sp_is_spd, copyof=sp_copyof, rows_of=sp_rows_of, cov=sp_cov, colmean=sp_colmean, transpose=sp_transpose, eigh_of=sp_eigh_of, forall=sp_forall, exists=sp_exists, implies=sp_implies, ite=sp_ite, old=sp_old,
+SPEC_BUILTINS = dict(cnt=sp_cnt, cnt_ext=sp_cnt_ext, psum=sp_psum, rsum=sp_rsum, norm=sp_norm, norm2d=sp_norm2d, sqrt=sp_sqrt, matmul=sp_matmul, chain_offset=sp_chain_offset, mean_of=sp_agg, median_of=sp_agg, sum_of=sp_agg, row_offset=sp_row_offset, mean_all=sp_mean_all, count_above=sp_count_above, trace=sp_trace, dict_get=sp_idict, dict_has=sp_idict, runsum=sp_runsum, ln=sp_ln, pi=sp_pi, isfinite=sp_isfinite, task_theta=sp_task_theta, spd_compressed_task=sp_spd_task, logdet=sp_logdet, is_spd=sp_is_spd, copyof=sp_copyof, rows_of=sp_rows_of, cov=sp_cov, colmean=sp_colmean, transpose=sp_transpose, eigh_of=sp_eigh_of, forall=sp_forall, exists=sp_exists, implies=sp_implies, ite=sp_ite, old=sp_old,
                      fresh=sp_fresh, allocated=sp_allocated, in_set=sp_in_set, same=sp_same, unchanged=sp_unchanged, isnone=sp_isnone, real=sp_real,
                      eqcontent=sp_eqcontent, let=sp_let, alloc_now=sp_alloc)
 
